@@ -220,6 +220,7 @@ func flexLayout(context *layoutContext, box_ Box, bottomSpace pr.Float, skipStac
 	}
 
 	childSkipStack := skipStack
+	var firstItem Box // the item skipStack belongs to
 	for _, child_ := range children {
 		child := child_.Box()
 		if !child.IsFlexItem {
@@ -377,6 +378,9 @@ func flexLayout(context *layoutContext, box_ Box, bottomSpace pr.Float, skipStac
 
 		// Skip stack is only for the first child
 		childSkipStack = nil
+		if firstItem == nil {
+			firstItem = child_
+		}
 	}
 
 	// Step 4
@@ -622,12 +626,17 @@ func flexLayout(context *layoutContext, box_ Box, bottomSpace pr.Float, skipStac
 	// TODO: Fix TODO in build.FlexChildren
 	// TODO: Handle breaks
 	var newFlexLines []flexLine
-	childSkipStack = skipStack
 	for _, line := range flexLines {
 		var newFlexLine flexLine
 		for _, v := range line.line {
 			child_ := v.box
 			child := child_.Box()
+			// Skip stack is only for the first child, wherever the reversed
+			// lines or items have put it
+			childSkipStack = nil
+			if child_ == firstItem {
+				childSkipStack = skipStack
+			}
 			// TODO: Find another way than calling blockLevelLayoutSwitch to
 			// get baseline and child.Height
 			if child.MarginTop == pr.AutoF {
@@ -660,9 +669,6 @@ func flexLayout(context *layoutContext, box_ Box, bottomSpace pr.Float, skipStac
 			}
 
 			newFlexLine.line = append(newFlexLine.line, indexedBox{index: v.index, box: child_})
-
-			// Skip stack is only for the first child
-			childSkipStack = nil
 		}
 		if len(newFlexLine.line) != 0 {
 			newFlexLines = append(newFlexLines, newFlexLine)
@@ -1146,10 +1152,13 @@ func flexLayout(context *layoutContext, box_ Box, bottomSpace pr.Float, skipStac
 	box_ = box_.Copy()
 	box = box_.Box()
 	box.Children = nil
-	childSkipStack = skipStack
 	for _, line := range flexLines {
 		for _, v := range line.line {
 			i, child := v.index, v.box.Box()
+			childSkipStack = nil
+			if v.box == firstItem {
+				childSkipStack = skipStack
+			}
 			if child.IsFlexItem {
 				newChild, tmp, _ := blockLevelLayoutSwitch(context, v.box.(bo.BlockLevelBoxITF), bottomSpace, childSkipStack, box,
 					pageIsEmpty, absoluteBoxes, fixedBoxes, new([]pr.Float), false, -1)
@@ -1178,9 +1187,6 @@ func flexLayout(context *layoutContext, box_ Box, bottomSpace pr.Float, skipStac
 					break
 				}
 			}
-
-			// Skip stack is only for the first child
-			childSkipStack = nil
 		}
 		if resumeAt != nil {
 			break
